@@ -64,9 +64,9 @@ theorem coh_new (e : EL) (he : e.its = []) : Coh (itNew e 0) 0 0 := by
 /-- ONE `hostlist_next` from (record i, k names given): the head of `remaining`, and the iterator
     then stands behind it -/
 theorem itNext_spec (cfg : Cfg) (e : EL) (hid : e.IdsOk) (hg : ∀ r ∈ e.ranges, r.Good)
-    (hn : ∀ r ∈ e.ranges, r.PrintsFull cfg) (i k : Nat) (hc : Coh e i k)
-    (hk : ∀ r, e.ranges[i]? = some r → k ≤ r.hosts.length) :
-    (remaining e.ranges i k = [] ∧ ∃ it', itNext cfg e 0 = .ok (none, { e with its := [(0, it')] })) ∨
+    (hn : ∀ r ∈ e.ranges, r.PrintsFull cfg) (i k : Nat) (hc : Coh e i k) :
+    (remaining e.ranges i k = [] ∧ ∃ (i' k' : Nat), remaining e.ranges i' k' = [] ∧
+        itNext cfg e 0 = .ok (none, { e with its := [(0, ⟨(i' : Int), (k' : Int) - 1, e.hrAt (i' : Int)⟩)] })) ∨
     (∃ (x : Str) (xs : List Str) (i' k' : Nat) (r' : HRange), remaining e.ranges i k = x :: xs ∧
         itNext cfg e 0 = .ok (some x, { e with its := [(0, ⟨(i' : Int), (k' : Int) - 1, e.hrAt (i' : Int)⟩)] }) ∧
         remaining e.ranges i' k' = xs ∧ e.ranges[i']? = some r' ∧ 1 ≤ k' ∧ k' ≤ r'.hosts.length ∧
@@ -77,7 +77,7 @@ theorem itNext_spec (cfg : Cfg) (e : EL) (hid : e.IdsOk) (hg : ∀ r ∈ e.range
     left
     have hlen : e.rs.length ≤ i := by simpa using hr
     have hrr : e.ranges[i]? = none := by rw [ranges_getElem?, hr]; rfl
-    refine ⟨remaining_none hrr, ⟨⟨(i : Int), (k : Int) - 1, e.hrAt (i : Int)⟩, ?_⟩⟩
+    refine ⟨remaining_none hrr, ⟨i, k, remaining_none hrr, ?_⟩⟩
     unfold itNext
     rw [hgi]
     have hcond : ((i : Int) > (e.rs.length : Int) - 1) := by omega
@@ -91,7 +91,6 @@ theorem itNext_spec (cfg : Cfg) (e : EL) (hid : e.IdsOk) (hg : ∀ r ∈ e.range
     have hrr : e.ranges[i]? = some o.r := by rw [ranges_getElem?, hr]; rfl
     have hmem : o.r ∈ e.ranges := List.mem_of_getElem? hrr
     have hgr := hg o.r hmem
-    have hkr := hk o.r hrr
     have hspan := hgr.span
     have hcond : ¬ ((i : Int) > (e.rs.length : Int) - 1) := by omega
     have hd : ((k : Int) - 1 + 1) = (k : Int) := by omega
@@ -113,7 +112,7 @@ theorem itNext_spec (cfg : Cfg) (e : EL) (hid : e.IdsOk) (hg : ∀ r ∈ e.range
       simp only [List.map_cons, List.map_nil, beq_self_eq_true, ↓reduceIte]
       congr 4
       omega
-    · have hke : k = o.r.hosts.length := by omega
+    · have hke : o.r.hosts.length ≤ k := by omega
       have hadv : ((k : Int)).toNat > subU64 o.r.hi o.r.lo := by
         simp only [Int.toNat_natCast]; omega
       have hi1 : ((i : Int) + 1) = ((i + 1 : Nat) : Int) := by omega
@@ -123,7 +122,7 @@ theorem itNext_spec (cfg : Cfg) (e : EL) (hid : e.IdsOk) (hg : ∀ r ∈ e.range
         have hrr2 : e.ranges[i + 1]? = none := by rw [ranges_getElem?, hr2]; rfl
         have hlen2 : e.rs.length ≤ i + 1 := by simpa using hr2
         refine ⟨by rw [remaining_next hrr (by omega)]; exact remaining_none hrr2,
-          ⟨⟨(i : Int) + 1, 0, e.hrAt ((i : Int) + 1)⟩, ?_⟩⟩
+          ⟨i + 1, 1, remaining_none hrr2, ?_⟩⟩
         unfold itNext
         rw [hgi]
         simp only [itAdvance, hcond, ↓reduceIte, hderef, hd, hadv]
@@ -132,7 +131,9 @@ theorem itNext_spec (cfg : Cfg) (e : EL) (hid : e.IdsOk) (hg : ∀ r ∈ e.range
         congr 2
         unfold EL.setIt
         rw [hc]
-        simp
+        simp only [List.map_cons, List.map_nil, beq_self_eq_true, ↓reduceIte]
+        rw [hi1]
+        congr 4
       | some o2 =>
         right
         have hlt2 : i + 1 < e.rs.length := (List.getElem?_eq_some_iff.mp hr2).1
